@@ -58,6 +58,20 @@ def project(log, sc, tid):
             ev.append({"ev": "quiesce", "t": t, "open": e["open"], "live": e["live"], "sock_none": e["sock_none"],
                        "deadlock": e["deadlock"], "overrun": e["overrun"]})
     ev.append({"ev": "end"})
+    # an attempt that was answered with a redirect is not a connection of its own: the hop that follows belongs to the
+    # same attempt.  Such hops are taken out and the later connections renumbered.
+    redirected = sorted({e["cid"] for e in ev if e.get("ev") == "dial" and e.get("outcome") == "redirected"})
+    if redirected:
+        def renum(c):
+            return c - sum(1 for r in redirected if r < c)
+        out = []
+        for e in ev:
+            if "cid" in e and e["cid"] in redirected:
+                continue
+            if "cid" in e and isinstance(e["cid"], int) and e["cid"] >= 0:
+                e = dict(e, cid=renum(e["cid"]))
+            out.append(e)
+        ev = out
     for i, e in enumerate(ev):
         e["tid"] = tid
         e["i"] = i
